@@ -275,3 +275,31 @@ proof fn lemma_searches_ok<V>(n: NfaBuilder<u8, V>, st: Seq<State>, idmap: Seq<u
         theorem_c02_bw(n, st, idmap, hay);
     }
 }
+
+// what build_with_values promises about the automaton it returns (as fields, so that the exec function's own obligation is small)
+spec fn bwv_post<P: AsRef<[u8]>, V>(st: Seq<State>, outs: Seq<Output<V>>, num_states: u32, items: Seq<(P, V)>, kind: MatchKind) -> bool {
+    &&& pats_valid(items)
+    &&& bw_wf(st, lm_of(kind)) && outs_ok(st, outs)
+    &&& exists|n: NfaBuilder<u8, V>| trie_ok(n) && reach_ok(n) && seen_is(n, items, items.len() as int)
+            && #[trigger] n.states@.len() == num_states + 1 && st.len() >= n.states@.len()
+            && values_are(n, items, items.len() as int)
+            && (kind is Standard ==> searches_ok(st, outs, n))
+}
+proof fn lemma_bwv_post<P: AsRef<[u8]>, V>(nfa: NfaBuilder<u8, V>, st: Seq<State>, num_states: u32, items: Seq<(P, V)>, kind: MatchKind)
+    requires
+        // from build_sparse_nfa
+        pats_valid(items), nfa_tree(nfa), nfa_links(nfa, lm_of(kind)), nfa_outs_ok(nfa), trie_ok(nfa), reach_ok(nfa),
+        seen_is(nfa, items, items.len() as int), values_are(nfa, items, items.len() as int), kind is Standard ==> ac_fail(nfa) && ac_outs(nfa),
+        // from build_double_array
+        da_safe(st), exists|idmap: Seq<u32>| bw_built(st, nfa, idmap),
+        // the state count
+        nfa.states@.len() == num_states + 1,
+    ensures bwv_post(st, nfa.outputs@, num_states, items, kind),
+{
+    let idmap = choose|idmap: Seq<u32>| bw_built(st, nfa, idmap);
+    lemma_encodes_gives_wf(nfa, st, idmap, lm_of(kind));
+    lemma_built_outs_ok(st, nfa, idmap);
+    lemma_slots_at_least_states(st, nfa, idmap);
+    if kind is Standard { lemma_searches_ok(nfa, st, idmap); }
+    assert(nfa.states@.len() == num_states + 1 && st.len() >= nfa.states@.len());
+}
